@@ -262,6 +262,35 @@ void genC04(uint64_t seed, int tier, Scenario& sc) {
     pushSend(sc, "setoption name Threads value " + std::to_string(r.chance(0.5) ? 1 : r.range(2, 4)));
     pushSend(sc, "setoption name Hash value " + std::to_string(r.chance(0.4) ? 1 : r.range(1, 32)));
     if (r.chance(0.3)) pushSend(sc, "setoption name UseNullMove value false");
+    if (r.chance(0.1)) {
+        // history script: the on-demand tablebase of a pawnless <= 4-man root is built by a search without depth or node
+        // limit, a bigger position is searched on a clock, then the small material comes back. Announced mates of the
+        // later searches are checked like all others.
+        const long long costNs = sc.knobInt("node_cost_ns", 1000);
+        const int men = r.chance(0.6) ? 3 : 4;
+        pushSend(sc, "setoption name Hash value " + std::to_string(r.range(8, 32))); // the table needs 7 MB of hash
+        for (int round = 0; round < 2; round++) {
+            for (int j = 0, n = (int)r.range(1, 2); j < n; j++) {
+                pg::GenPos gp;
+                if (!pg::sparse(r, men, true, 0, gp)) continue;
+                pushSend(sc, gp.positionCmd);
+                pushSend(sc, "go infinite");
+                sc.ops.push_back("wait_ticks " + std::to_string(r.logRange(2000, 30000)));
+                pushSend(sc, "stop");
+                sc.ops.push_back("wait_bestmove");
+            }
+            if (round == 0) {
+                pg::GenPos gp;
+                pg::randomGame(r, (int)r.range(4, 40), false, gp);
+                pushSend(sc, gp.positionCmd);
+                long long nodes = r.logRange(5000, 60000);
+                pushSend(sc, "go movetime " + std::to_string(std::max(1LL, nodes * costNs / 1000000)));
+                sc.ops.push_back("wait_bestmove");
+            }
+        }
+        pushSend(sc, "quit");
+        return;
+    }
     int nGo = (int)r.range(1, 4);
     for (int i = 0; i < nGo; i++) {
         pg::GenPos gp;
